@@ -243,7 +243,29 @@ pub fn gen_louv(rng: &mut Rng, profile: &str, size: usize) -> LouvCase {
             g.edges.push((g.nodes[0], g.nodes[1], if weighted { Some(1) } else { None }));
         }
     }
-    let res = *rng.pick(&[(1i64, 1u32), (1, 1), (1, 1), (1, 2), (3, 2), (2, 1)]);
+    let mut res = *rng.pick(&[(1i64, 1u32), (1, 1), (1, 1), (1, 2), (3, 2), (2, 1)]);
+    if profile == "strand" {
+        // small sparse directed graphs, mostly acyclic (sources with out-edges only, sinks with in-edges only), resolution
+        // above 1: nodes join a community and are later left behind in it without any edge into it
+        let n = *rng.pick(&[3u32, 4, 4, 4, 4, 5, 5, 5, 6, 6]);
+        let mut order: Vec<u32> = (1..=n).collect();
+        rng.shuffle(&mut order);
+        let mut edges = vec![];
+        let pct = *rng.pick(&[40u64, 60, 80, 100]);
+        for i in 0..n as usize {
+            for j in (i + 1)..n as usize {
+                if rng.chance(pct) {
+                    let (u, v) = if rng.chance(94) { (order[i], order[j]) } else { (order[j], order[i]) };
+                    edges.push((u, v, if weighted { Some(rng.range(1, 3)) } else { None }));
+                }
+            }
+        }
+        if edges.is_empty() { edges.push((order[0], order[1], if weighted { Some(1) } else { None })); }
+        let mut nodes: Vec<u32> = (1..=n).collect();
+        if rng.chance(50) { rng.shuffle(&mut nodes); }
+        g = GraphCase { specs: crate::store::Specs { directed: true, multi: false, self_loops: false, dedupe: 1, missing: 0, slfalse: 1 }, nodes, edges };
+        res = *rng.pick(&[(6i64, 5u32), (6, 5), (11, 10), (5, 4), (3, 2), (7, 4), (2, 1), (1, 1)]);
+    }
     LouvCase { g, weighted, res, seed: rng.below(1000) }
 }
 
